@@ -64,11 +64,15 @@ pub struct Opts {
     pub trace: bool,
     /// decisions are explicit choice indices (0 = stay / lowest) instead of threshold bytes
     pub explicit: bool,
+    /// reuse the decision bytes cyclically when they are exhausted (instead of zeros)
+    pub cycle: bool,
+    /// override: decide only at exclusive acquisitions (None: taken from the decision bytes)
+    pub excl_only: Option<bool>,
 }
 
 impl Default for Opts {
     fn default() -> Self {
-        Opts { step_limit: 200_000, trace: false, explicit: false }
+        Opts { step_limit: 200_000, trace: false, explicit: false, cycle: false, excl_only: None }
     }
 }
 
@@ -107,6 +111,8 @@ struct State {
     decisions: Vec<u8>,
     pos: usize,
     theta: u8,
+    /// preempt only at exclusive acquisitions (mutex / write locks)
+    excl_only: bool,
     opts: Opts,
     steps: u64,
     switches: u64,
@@ -173,6 +179,10 @@ impl State {
     fn next_byte(&mut self) -> u8 {
         if self.pos < self.decisions.len() {
             let b = self.decisions[self.pos];
+            self.pos += 1;
+            b
+        } else if self.opts.cycle && !self.decisions.is_empty() {
+            let b = self.decisions[self.pos % self.decisions.len()];
             self.pos += 1;
             b
         } else {
@@ -292,7 +302,7 @@ fn wait_turn(
     }
 }
 
-fn sched_point(me: usize) -> Option<MutexGuard<'static, Option<State>>> {
+fn sched_point(me: usize, m: Mode) -> Option<MutexGuard<'static, Option<State>>> {
     let mut g = lock_state();
     {
         let s = match g.as_mut() {
@@ -307,6 +317,9 @@ fn sched_point(me: usize) -> Option<MutexGuard<'static, Option<State>>> {
             CV.notify_all();
             std::panic::resume_unwind(Box::new(Abort));
         }
+        if s.excl_only && m == Mode::Shared {
+            return Some(g);
+        }
         s.pick_next(true, me);
         if s.current == me {
             return Some(g);
@@ -319,7 +332,7 @@ fn sched_point(me: usize) -> Option<MutexGuard<'static, Option<State>>> {
 /// Called before a blocking lock acquisition.
 pub fn acquire(addr: usize, m: Mode) {
     let Some(me) = TID.with(|t| t.get()) else { return };
-    let Some(mut g) = sched_point(me) else { return };
+    let Some(mut g) = sched_point(me, m) else { return };
     loop {
         let s = g.as_mut().unwrap();
         s.lock_id(addr);
@@ -340,7 +353,7 @@ pub fn acquire(addr: usize, m: Mode) {
 /// Called before a try-lock.  `None`: thread not scheduled, proceed with the real try.
 pub fn try_acquire(addr: usize, m: Mode) -> Option<bool> {
     let me = TID.with(|t| t.get())?;
-    let mut g = sched_point(me)?;
+    let mut g = sched_point(me, m)?;
     let s = g.as_mut().unwrap();
     s.lock_id(addr);
     let l = s.locks.get(&addr).unwrap();
@@ -416,7 +429,7 @@ pub fn downgrade(addr: usize) {
 /// Explicit scheduling point (no lock involved); no-op for unregistered threads.
 pub fn yield_point() {
     let Some(me) = TID.with(|t| t.get()) else { return };
-    if let Some(mut g) = sched_point(me) {
+    if let Some(mut g) = sched_point(me, Mode::Excl) {
         let s = g.as_mut().unwrap();
         s.ev(me, Op::Yield, 0, Mode::Shared);
     }
@@ -446,14 +459,19 @@ pub type Body = Box<dyn FnOnce() + Send + 'static>;
 /// Run the bodies under the schedule given by `decisions`.
 pub fn run(bodies: Vec<Body>, decisions: &[u8], opts: Opts) -> Report {
     let n = bodies.len();
+    let excl_only = opts.excl_only.unwrap_or(!opts.explicit && decisions.first().map(|b| b & 0x10 != 0).unwrap_or(false));
     let (theta, rest) = if opts.explicit {
         (0u8, decisions)
     } else {
-        let t = match decisions.first().copied().unwrap_or(0) >> 6 {
+        let t = match decisions.first().copied().unwrap_or(0) >> 5 {
             0 => 192u8,
             1 => 224,
             2 => 240,
-            _ => 248,
+            3 => 248,
+            4 => 252,
+            5 => 254,
+            6 => 128,
+            _ => 232,
         };
         (t, if decisions.is_empty() { decisions } else { &decisions[1..] })
     };
@@ -468,6 +486,7 @@ pub fn run(bodies: Vec<Body>, decisions: &[u8], opts: Opts) -> Report {
             decisions: rest.to_vec(),
             pos: 0,
             theta,
+            excl_only,
             opts: opts.clone(),
             steps: 0,
             switches: 0,
@@ -571,6 +590,7 @@ pub fn run_inline<F: FnOnce()>(f: F, opts: Opts) -> Report {
         decisions: Vec::new(),
         pos: 0,
         theta: 255,
+        excl_only: false,
         opts,
         steps: 0,
         switches: 0,
